@@ -54,6 +54,7 @@ PATTERNS = [
     ('ab|cd', 2, 2, 'abcd'),
     ('[A-Z][a-z]{1,5}', 2, 6, 'capword'),
     ('id:.+', 4, None, 'idcolon'),
+    ('[^"]+', 1, None, 'noquote'),          # a pattern that itself contains a quoting character
 ]
 
 
